@@ -199,6 +199,18 @@ func suiteHistory(c *ctx) {
 		{tbl("a", ints("x")...), tbl("b", ints("y", "z")...)},
 	}
 	runHistory(c, "w-disk-versioned", my, vrevs, true, root, true)
+	// C04-r: a folder in which a later migration has the same text as an earlier one (a table created, dropped, created
+	// again the same way; a column added, dropped, added again)
+	runHistory(c, "w-disk-revisited", my, [][]Stmt{
+		{tbl("a", ints("x")...)},
+		{tbl("a", ints("x")...), tbl("b", ints("y")...)},
+		{tbl("a", ints("x")...)},
+		{tbl("a", ints("x")...), tbl("b", ints("y")...)},
+		{tbl("a", ints("x", "w")...), tbl("b", ints("y")...)},
+		{tbl("a", ints("x")...), tbl("b", ints("y")...)},
+		{tbl("a", ints("x", "w")...), tbl("b", ints("y")...)},
+	}, true, root)
+	c.count("on_disk_histories")
 	// C13-c: under the ignore-field-order option, with the history read back from a migration folder at every step, a
 	// column added in the middle and one added in front must not get a positional clause
 	runHistory(c, "w-disk-ignore-order", runCfg{dialect: "mysql", lower: false, ignore: true}, [][]Stmt{
